@@ -15,7 +15,7 @@ RULE = (
     "raises one of {ValueError, KeyError, RecursionError, a BaseException subclass, StopIteration}; required: the very exception "
     "object reaches the caller, and afterwards get_active_rules(), options, renderer rule names and all probe parses/renders equal "
     "those of a twin instance (same plug-ins, never armed). Mode 'fresh' uses a new instance per crash point, mode 'sequence' "
-    "subjects one instance to a random sequence of crash points, probing after each. reset_rules: bodies that exit normally, raise "
+    "subjects one instance to a random sequence of crash points, probing after each. reset_rules: entered from ordinary states and from states in which the inline or inline2 chain is empty; bodies that exit normally, raise "
     "(5 exception kinds), return/break out of the block, nested 2-3 deep with failures at each level, with rules enabled/disabled/"
     "added inside: rules in force afterwards must be those on entry. Non-trivial = crash point at which the exception really was "
     "raised inside the library; distinct by (document, api, callback, i, exception)."
